@@ -95,8 +95,7 @@ pub struct Swarm {
     pub docs: bool,
     pub unicode: bool,
     pub positionals: bool,
-    /// parsers with `max_width` other than the default (never in C11, whose prediction renders
-    /// at the default width)
+    /// parsers with `max_width` other than the default
     pub widths: bool,
     /// values with an audible destructor (C11 only: they ring on the simulated stdout)
     pub bells: bool,
